@@ -292,6 +292,30 @@ def rule_d(ctx: Context, R: Reporter, syst: FuncInfo):
         rep = call_arg(s.call, 2, "replace")
         rep_ok = rep is None or const_value(rep) is True
         R.check("C06.d", "draw is with replacement", rep_ok, fi, s.call, msg=f"{fi.short}: replace=`{unparse(rep)}`", key="replace")
+    # numpy's own contracts differ: Generator/RandomState.choice accepts |sum(p) - 1| <= sqrt(eps) (the tolerance
+    # the property quantifies over), multinomial(n, pvals) raises as soon as sum(pvals[:-1]) > 1 + 1e-12 and silently
+    # hands the residual mass to the last category.  Raw weights passed to multinomial are outside its contract.
+    for s in ctx.rng.draws():
+        if s.name != "numpy.random.multinomial":
+            continue
+        fi = s.func
+        if "weights" not in fi.params:
+            continue
+        if not any(isinstance(t, FuncInfo) and t is syst for (c, tg) in ctx.cg.sites.get(fi.qualname, []) for t in tg):
+            continue
+        pv = call_arg(s.call, 1, "pvals")
+        if pv is None:
+            continue
+        flow = flow_of(fi.node)
+        at = flow.node_containing(s.call)
+        pdefs = flow.reaching(at, pv.id) if isinstance(pv, ast.Name) else []
+        raw = isinstance(pv, ast.Name) and len(pdefs) == 1 and pdefs[0].kind == "param"
+        if raw:
+            n += 1
+            R.check("C06.d", "the multinomial draw accepts every weight vector within the sqrt(eps) tolerance", False, fi, s.call,
+                    msg=f"{fi.short}: `{unparse(s.call)[:70]}` hands the weights as given to numpy's multinomial, whose contract is sum(pvals[:-1]) <= 1 + 1e-12 (ValueError "
+                        f"beyond that, residual mass silently given to the last index): a vector whose sum is off by up to sqrt(eps), which `choice(p=...)` and the systematic "
+                        f"routine accept, is rejected or resampled with a biased last weight", key="multinomial-pvals-tolerance")
     R.floor("C06.d", "multinomial draw sites with p=weights", n, 1)
 
 
@@ -410,6 +434,7 @@ def variants():
         Variant("c-per-position-draw", "bad", replace_expr(tl, "systematic_resample", "np.random.random()", "np.random.random(size)"), ["C06.c"], quick=True),
         Variant("c-positions-no-offset-div", "bad", replace_expr(tl, "systematic_resample", "(np.random.random() + np.arange(size)) / size", "np.random.random() + np.arange(size) / size"), ["C06.c"]),
         Variant("d-p-uniform", "bad", replace_expr(rs, "Resampler.run", "np.random.choice(np.arange(len(weights)), size=self.n_particles, replace=True, p=weights)", "np.random.choice(np.arange(len(weights)), size=self.n_particles, replace=True, p=weights ** 2 / np.sum(weights ** 2))"), ["C06.d", "ANALYSIS-ERROR"]),
+        Variant("d-multinomial-counts", "bad", replace_stmt(rs, "Resampler.run", "idx_resampled = np.random.choice(np.arange(len(weights)), size=self.n_particles, replace=True, p=weights)", "idx_resampled = np.repeat(np.arange(len(weights)), np.random.multinomial(self.n_particles, weights))"), ["C06.d"]),
         Variant("d-no-replace", "bad", set_keyword(rs, "Resampler.run", "np.random.choice", "replace", "False"), ["C06.d"]),
         Variant("d-population-short", "bad", replace_expr(rs, "Resampler.run", "np.arange(len(weights))", "np.arange(self.n_particles)"), ["C06.d"], quick=True),
         Variant("benign-bound-form", "benign", replace_expr(tl, "systematic_resample", "j < len(weights) - 1", "j + 1 < len(weights)"), quick=True),
